@@ -335,8 +335,10 @@ class MafHeader(MutableMapping):
             )
         else:
             # ensure that the version is a supported version
+            # consult the registry as it is now: schemes registered after this
+            # module was imported are supported too
             version = self[MafHeader.VersionKey].value
-            if version not in MafHeader.SupportedVersions:
+            if version not in [s.version() for s in all_schemes()]:
                 add_error(
                     MafValidationError(
                         MafValidationErrorType.HEADER_UNSUPPORTED_VERSION,
@@ -367,7 +369,7 @@ class MafHeader(MutableMapping):
             else:
                 # ensure that the annotation spec is a supported annotation spec
                 annotation = self[MafHeader.AnnotationSpecKey].value
-                if annotation not in MafHeader.SupportedAnnotationSpecs:
+                if annotation not in [s.annotation_spec() for s in all_schemes()]:
                     add_error(
                         MafValidationError(
                             MafValidationErrorType.HEADER_UNSUPPORTED_ANNOTATION_SPEC,
